@@ -186,6 +186,11 @@ def wrap(form, lines, ext, i):
     if form == "doc":
         if len(lines) == 1:
             return ["/** " + lines[0] + " */"], 0, [(0, 4)]
+        if i % 2:
+            # the closing delimiter shares the last decorated line
+            out = ["/*"] + [" * " + l for l in lines]
+            out[-1] += " */"
+            return out, 0, [(k + 1, 3) for k in range(len(lines))]
         out = ["/**"] + [" * " + l for l in lines] + [" */"]
         return out, 0, [(k + 1, 3) for k in range(len(lines))]
     if form == "mblock":
@@ -275,7 +280,9 @@ def render(items, ext, variant=0, crlf=False, multibyte=False, tag_attrs=None, b
                     sidx += 1
                     extra = (tag_attrs or {}).get(sidx, "")
                     if mlattr:
-                        extra += ' ml="two\x00lines"'       # \x00 = line break inside the quoted value where the form allows
+                        # \x00 = line break where the form allows: inside a quoted value, or between two attributes
+                        # (not between attributes inside a block quote: the quote marker "> " of the next line ends the tag)
+                        extra += ' ml="two\x00lines"' if (sidx % 2 == 0 or container == "bq") else ' ml="two"\x00second="lines"'
                     texts.append(("S", "<block>" if bare else '<block name="n%d"%s>' % (sidx, extra), p, "n%d" % sidx))
                 else:
                     es = END_SPELLINGS[endsp % 4] if endsp is not None else ("</block>" if (n + p) % 3 else "</ block >")
@@ -374,4 +381,7 @@ def render(items, ext, variant=0, crlf=False, multibyte=False, tag_attrs=None, b
                      offs[l1] + len(out_lines[l1][:c1].encode()) + (len(nl) if incl_nl else 0))
     total = len(text.encode())
     cspans = {n: (a, min(b, total)) for n, (a, b) in cspans.items()}
-    return {"name": file_name(ext), "text": text, "starts": starts, "comments": cspans, "lines": out_lines}
+    name = file_name(ext)
+    if ext in NAMELESS and variant % 2:
+        name = "tools." + ext              # a stem in front of a compound or whole-name suffix: tools.go.mod, tools.Makefile
+    return {"name": name, "text": text, "starts": starts, "comments": cspans, "lines": out_lines}
